@@ -178,6 +178,18 @@ class ArgsProp(Exception):
     return (self.code,)
 
 
+class HttpError(Exception):
+  """`__init__` accepts what ends up in `args` by arity, but not by meaning: it must not be run a second time"""
+  def __init__(self, status):
+    status = int(status)
+    super().__init__('HTTP %d' % status)
+    self.status = status
+
+
+class TrailingBlank(ValueError):
+  """the text ends in blanks and empty lines: they are part of it"""
+
+
 def make_job_error():
   """A class made by a factory: every call gives a new class with the same module and qualified name."""
   class JobError(RuntimeError):
@@ -191,7 +203,7 @@ class _FactoryMade:
   __name__ = 'FactoryMade'
 
 
-USER = [(CodeErr, (5,)), (Tagged, ('boom',)), (ArgsProp, (7,)), (_FactoryMade, ('nightly', 3)), (FalsyAttrs, ('falsy',)), (StopZero, (0,)), (QuotaError, ('disk', 3)), (KwOnlyNew, {'key': 'k1'}), (DeviceError, ('sda', 5, 'I/O error')), (BatchError, ([ValueError('a'), KeyError('b')], 'load', 3)),
+USER = [(HttpError, (404,)), (TrailingBlank, ('cannot parse value: ',)), (TrailingBlank, ('two empty lines follow\n\n',)), (CodeErr, (5,)), (Tagged, ('boom',)), (ArgsProp, (7,)), (_FactoryMade, ('nightly', 3)), (FalsyAttrs, ('falsy',)), (StopZero, (0,)), (QuotaError, ('disk', 3)), (KwOnlyNew, {'key': 'k1'}), (DeviceError, ('sda', 5, 'I/O error')), (BatchError, ([ValueError('a'), KeyError('b')], 'load', 3)),
         (NeedsArgs, (1, 'two')), (NeedsNewArgs, (404, 'nf')), (Slotted, ([1, 2],)), (CustomStr, ('m', {'k': 1})),
         (WithProperty, (21,))]
 
@@ -372,7 +384,7 @@ def gen_cases(rng, tier, boost=1):
 
 def _make(case):
   if case['user']:
-    cls, args = next((c, a) for c, a in USER if c.__name__ == case['cls'])
+    cls, args = next((c, a) for c, a in USER if c.__name__ == case['cls'] and repr(a)[:80] == case['args_repr'])
     if cls is _FactoryMade:
       cls = make_job_error()
   else:
